@@ -67,22 +67,39 @@ pub fn main_entry(args: Vec<String>) -> i32 {
             let budget: usize = args[2].parse().unwrap_or(200);
             let sel: Vec<&String> = args[3..].iter().collect();
             let mut found = 0;
+            let mut hung = false;
             for c in &reg {
                 let hit = sel.iter().any(|s| s.as_str() == "all" || s.as_str() == c.name
                     || c.covers.iter().any(|f| s.as_str() == format!("fn:{}", f)));
                 if !hit { continue; }
-                let mut rng = Rng::new(seed ^ fxhash(c.name));
-                let res = std::panic::catch_unwind(std::panic::AssertUnwindSafe(|| (c.search)(&mut rng, budget)));
-                let out = match res {
-                    Ok(None) => None,
-                    Ok(Some(s)) => Some(s),
-                    Err(_) => Some("{\"panic\":\"contract search panicked outside a guarded call\"}".to_string()),
+                // every contract runs on its own thread under a wall-clock limit: code under test that loops forever
+                // (C09, C03 D3-style hangs) must end the search with a FAIL, not block it
+                let limit = contract_wall_limit(budget);
+                let search = c.search;
+                let name = c.name;
+                let (tx, rx) = std::sync::mpsc::channel();
+                std::thread::Builder::new().stack_size(64 << 20).spawn(move || {
+                    let mut rng = Rng::new(seed ^ fxhash(name));
+                    let res = std::panic::catch_unwind(std::panic::AssertUnwindSafe(|| (search)(&mut rng, budget)));
+                    let _ = tx.send(match res {
+                        Ok(None) => None,
+                        Ok(Some(s)) => Some(s),
+                        Err(_) => Some("{\"panic\":\"contract search panicked outside a guarded call\"}".to_string()),
+                    });
+                }).expect("spawn");
+                let out = match rx.recv_timeout(std::time::Duration::from_secs(limit)) {
+                    Ok(o) => o,
+                    Err(_) => { hung = true; Some(format!("{{\"hang\":\"the contract did not finish within {} s: the code under test loops forever or dead-locks on one of its inputs\"}}", limit)) }
                 };
                 match out {
                     None => println!("RESULT\t{}\tpass", c.name),
                     Some(s) => { found += 1; println!("RESULT\t{}\tFAIL\t{}", c.name, s.replace('\n', " ")); }
                 }
+                if hung { break; }   // the stuck thread keeps a core busy: stop here, the process exits below
             }
+            use std::io::Write;
+            let _ = std::io::stdout().flush();
+            if hung { std::process::exit(1); }
             if found > 0 { 1 } else { 0 }
         }
         Some("rerun") => {
@@ -90,12 +107,22 @@ pub fn main_entry(args: Vec<String>) -> i32 {
             let input = &args[2];
             for c in &reg {
                 if c.name == name {
-                    let res = std::panic::catch_unwind(std::panic::AssertUnwindSafe(|| (c.rerun)(input)));
-                    return match res {
-                        Ok(None) => { println!("RESULT\t{}\tpass", c.name); 0 }
-                        Ok(Some(m)) => { println!("RESULT\t{}\tFAIL\t{}", c.name, m.replace('\n', " ")); 1 }
-                        Err(_) => { println!("RESULT\t{}\tFAIL\tpanic during rerun", c.name); 1 }
+                    let rerun = c.rerun;
+                    let inp = input.clone();
+                    let (tx, rx) = std::sync::mpsc::channel();
+                    std::thread::Builder::new().stack_size(64 << 20).spawn(move || {
+                        let res = std::panic::catch_unwind(std::panic::AssertUnwindSafe(|| (rerun)(&inp)));
+                        let _ = tx.send(res.map_err(|_| ()));
+                    }).expect("spawn");
+                    let code = match rx.recv_timeout(std::time::Duration::from_secs(contract_wall_limit(0))) {
+                        Ok(Ok(None)) => { println!("RESULT\t{}\tpass", c.name); 0 }
+                        Ok(Ok(Some(m))) => { println!("RESULT\t{}\tFAIL\t{}", c.name, m.replace('\n', " ")); 1 }
+                        Ok(Err(())) => { println!("RESULT\t{}\tFAIL\tpanic during rerun", c.name); 1 }
+                        Err(_) => { println!("RESULT\t{}\tFAIL\thang: no result within the wall-clock limit", c.name); 1 }
                     };
+                    use std::io::Write;
+                    let _ = std::io::stdout().flush();
+                    std::process::exit(code);
                 }
             }
             eprintln!("unknown contract {}", name);
@@ -103,6 +130,12 @@ pub fn main_entry(args: Vec<String>) -> i32 {
         }
         _ => { eprintln!("usage: verif_replay list | search <seed> <budget> <sel>.. | rerun <name> <input>"); 2 }
     }
+}
+
+/// wall-clock limit of one contract search (seconds): generous for the case counts used by the tiers, VERIF_CONTRACT_WALL overrides
+fn contract_wall_limit(budget: usize) -> u64 {
+    if let Ok(v) = std::env::var("VERIF_CONTRACT_WALL") { if let Ok(n) = v.parse::<u64>() { return n; } }
+    if budget <= 400 { 300 } else { 1500 }
 }
 
 fn fxhash(s: &str) -> u64 {
